@@ -46,9 +46,10 @@ func (p Prog) clone() Prog {
 var entryTokens = []string{
 	"a", "b", "c", "ab", "|", "(", "(?:", ")", "[", "]", "a-c", "*", "+", "?", "{2}", ".", "^", "$",
 	`\.`, `\\`, `\x5c`, `"`, `\"`, `\s`, `\t\n\f\r `, " ", "!-~", `\x00`, "é", `\b`,
-	`\(?i:`, // literal text that looks like an engine flag group
-	"-~",    // after the Perl white-space class: `[\t\n\f\r -~]`, the blank starts a range
-	"%",     // a formatting verb for whoever prints the result with a printf-style function
+	`\(?i:`,    // literal text that looks like an engine flag group
+	`\S`, `\D`, // upper-case escape classes (well-formed under the i flag as well)
+	"-~", // after the Perl white-space class: `[\t\n\f\r -~]`, the blank starts a range
+	"%",  // a formatting verb for whoever prints the result with a printf-style function
 }
 
 // additional tokens for C02 (pasting safety)
@@ -114,7 +115,7 @@ var structLines = []string{"a", "b|c", "ab", "##!=>", "##!=< x", "##!=> x", "##!
 
 // structLines2: the structural alphabet plus comments, blank and indented lines, a second stored name, the other
 // shell, and header lines (they apply to the whole file wherever they stand)
-var structLines2 = append(append([]string{}, structLines...), "##! c", "", "  a", "##!=< y", "##!=> y", "##!> cmdline windows", "##!^ p", "##!$ s", "##!+ i",
+var structLines2 = append(append([]string{}, structLines...), "##! c", "", "  a", "##!=< x.y", "##!=> x.y", "##!> cmdline windows", "##!^ p", "##!$ s", "##!+ i",
 	"##!> include incd", "##!> define d [$o]", "{{d}}b", "a~", "b@")
 
 // wellFormedBody: balanced, names stored before use, markers only in assemble blocks,
